@@ -108,20 +108,20 @@ func NewHTTPStoreCache(key []byte, store store.Store) *httpCache {
 
 // Get get http cache
 func (hc *httpCache) Get() (status Status, response *HTTPResponse) {
-	hc.mu.Lock()
-	status, done, response := hc.get()
-	hc.mu.Unlock()
-	// 如果done不为空，表示需要等待确认当前请求状态
-	if done != nil {
+	for {
+		hc.mu.Lock()
+		s, done, resp := hc.get()
+		hc.mu.Unlock()
+		// 如果done为空，表示已确认当前请求状态
+		if done == nil {
+			return s, resp
+		}
 		// TODO 后续再考虑是否需要添加timeout（proxy部分有超时，因此暂时可不添加)
 		<-done
-		// 完成后重新获取当前状态与响应
-		// 此时状态只可能是hit for pass 或者 hit
-		// 而此两种状态的数据缓存均不会立即失效，因此可以从hc中获取
-		status = hc.status
-		response = hc.response
+		// 完成后需要在锁内重新获取当前状态与响应，
+		// 因为在被唤醒到重新执行之间，缓存有可能已过期并由其它请求重新fetching，
+		// 此时应继续等待（或成为新的fetching请求），而不能无锁读取hc的数据
 	}
-	return
 }
 
 // Bytes httpcache to bytes
